@@ -340,14 +340,28 @@ func RunLive(s *kernel.Sim, o LiveOpts) *World {
 				}
 				s.Advance(d)
 			}})
-			if o.Skew && t.Bool(1, 4) {
-				acts = append(acts, Action{W: 1, Name: "clock-jump", Do: func() {
-					j := []time.Duration{time.Minute, time.Hour, 24 * time.Hour}[t.Choice(3)]
-					w.Skew.Add(int64(j))
-					s.Fault("clock-jump")
-					w.Tracef("store clock jumps forward by %v", j)
-				}})
+		}
+		busyReaders := 0
+		for _, b := range l.readerBusy {
+			if b {
+				busyReaders++
 			}
+		}
+		// (mid-call only while the calls in progress are handle reads: for the
+		// other calls the harness books its own view of the clock after the
+		// call returned, which a jump in between would falsify)
+		if o.Skew && (quiet || l.tasksBusy <= busyReaders) && t.Bool(1, 4) {
+			// the store's wall clock is stepped forward (NTP, a resumed VM):
+			// at a quiet moment, or while calls are in the middle of something
+			acts = append(acts, Action{W: 1, Name: "clock-jump", Do: func() {
+				j := []time.Duration{time.Second, time.Minute, time.Hour, 24 * time.Hour}[t.Choice(4)]
+				w.Skew.Add(int64(j))
+				s.Fault("clock-jump")
+				if !quiet {
+					s.Fault("clock-jump-mid-call")
+				}
+				w.Tracef("store clock jumps forward by %v", j)
+			}})
 		}
 		return acts
 	})
